@@ -19,10 +19,9 @@
 * C10.defaults.info: cross / als / als_func called with the default `info` argument after an earlier default-info
   call with different stopping parameters return exactly what a call with a fresh info={} returns, and the default
   dictionary then holds exactly the fresh dictionary's entries (nothing carried over).
-* C10.defaults.info.allow_swap: the same after an als(allow_swap=True) call with the default info.  FAILS on the
-  clean tree (possible genuine defect, reported): the key 'rearrange' written by the allow_swap call stays in the
-  module-level default dictionary and shows up in every later default-info call (`info.update` resets only the
-  five standard keys).
+* C10.defaults.info.allow_swap: the same after an als(allow_swap=True) call with the default info (on the pinned tree the
+  key 'rearrange' written by that call stayed in the module-level default dictionary: repaired by a `fix:` commit, see
+  known_findings.json).
 * C10.defaults.cache_to_data: cache_to_data() with its default never changes, whatever was converted before.
 
 Parameter coverage (audit): the seeded table has, besides one default-ish call per routine, every parameter that
